@@ -347,10 +347,15 @@ impl Timestamp {
             .duration_since(SystemTime::UNIX_EPOCH)
             .expect("system time before UNIX epoch")
             .as_micros() as u64;
+        #[cfg(iroh_verif)]
+        let micros = iroh_base::verif::clock_micros("pkarr.timestamp.clock", micros);
         // Ensure strictly monotonic: if the clock went backward or two calls
         // land in the same microsecond, we increment from the last value.
         let mut last = LAST_TIMESTAMP.load(Ordering::Relaxed);
         loop {
+            // Scheduling point after the load (first iteration) and after every failed CAS.
+            #[cfg(iroh_verif)]
+            iroh_base::verif::pause("pkarr.timestamp.before_cas");
             let next = micros.max(last + 1);
             match LAST_TIMESTAMP.compare_exchange_weak(
                 last,
